@@ -323,7 +323,7 @@ let process_trace header lines =
                  if List.exists (fun ra -> int_of_n (groups_used ra) > 1) al then tag "multi-group";
                  let after = impl.pools in
                  let live' = !ilive @ [ al ] in
-                 if not (exact_amount_ok !pools0 es al) then fail "C04" "exact-amount" ("request " ^ rq_s ^ " grant " ^ grant_s al);
+                 if not (exact_amount_ok !pools0 es al && exact_amount_set_ok !pools0 es al) then fail "C04" "exact-amount" ("request " ^ rq_s ^ " grant " ^ grant_s al);
                  if not (all_entries_free before !pools0 es) then fail "C04" "all-not-free" ("request " ^ rq_s);
                  if not (transfer_ok !pools0 before after al) then fail "C04" "told-not-held" ("request " ^ rq_s ^ " grant " ^ grant_s al);
                  if not (exclusive_ok !pools0 live') then fail "C04" "exclusive" ("after grant " ^ grant_s al);
